@@ -924,7 +924,16 @@ func (c *c19Ctx) execute(s *Scenario, keepDir bool) (out *ScenarioOutcome, viol 
 			go func() { // blocks in open until gosk opens the pipe for reading
 				defer close(feederDone)
 				if f, err := os.OpenFile(wp.SrcAbs, os.O_WRONLY, 0); err == nil {
-					f.Write(wp.fifoData)
+					// the text arrives in pieces, as from a slow producer: the reader sees several short reads
+					data := wp.fifoData
+					pieces := int(s.Seed%4) + 1
+					for i := 0; i < pieces; i++ {
+						lo, hi := len(data)*i/pieces, len(data)*(i+1)/pieces
+						f.Write(data[lo:hi])
+						if i < pieces-1 {
+							time.Sleep(3 * time.Millisecond)
+						}
+					}
 					f.Close()
 				}
 			}()
